@@ -49,6 +49,9 @@ def instances(tier):
     # two records whose time steps differ only by round-off (1/fs computed differently by two readers)
     for m in ("geometric_mean", "single_azimuth", "diffuse_field"):
         out.append({"name": f"{m}_near_equal_dt", "func": "run_method", "kwargs": {"method": m, "nrec": 2, "nfft": 4, "dts": [0.5, 0.49999999999999994]}})
+    # numpy's own default for the FFT length given explicitly: fft_settings = {"n": None} (no padding)
+    for m in ("geometric_mean", "azimuthal", "psd"):
+        out.append({"name": f"{m}_fft_n_none", "func": "run_method", "kwargs": {"method": m, "nrec": 1, "nfft": 4, "fft": {"n": None}}})
     if tier == "thorough":
         for m in METHODS:
             out.append({"name": f"{m}_n8", "func": "run_method", "kwargs": {"method": m, "nrec": 1, "nfft": 8}})
@@ -143,15 +146,17 @@ def mutable_ids(root, depth=6):
     return out
 
 
-def run_method(rep, tier, method, nrec, nfft, dts=None):
+def run_method(rep, tier, method, nrec, nfft, dts=None, fft="unset"):
     Ld = LD(nfft)
     P, S = Ld["processing"], Ld["settings"]
-    L = 3
+    L = 3 if fft == "unset" else 4          # with n = None the FFT length is the record length: a length the exact DFT model has
 
     def run(ctx):
         ss = [PP.samples(f"r{i}", L, ctx) for i in range(nrec)]
         recs = [PP.mkrec(Ld, ctx, f"r{i}", L, DT if dts is None else dts[i], comps=ss[i], degrees=15.0, meta={"file name(s)": f"f{i}", "note": [1, 2]}) for i in range(nrec)]
         st = make_settings(S, method, nfft)
+        if fft != "unset":
+            st.fft_settings = dict(fft)
         before_r, before_s = snap_records(recs), snap_settings(st)
         res1 = C01.process(P, recs, st)
         after_r, after_s = snap_records(recs), snap_settings(st)
@@ -172,7 +177,7 @@ def run_method(rep, tier, method, nrec, nfft, dts=None):
 
     for ctx, (ss, before_r, after_r, before_s, after_s, t1, t2, shared) in rep.explore(run, max_paths=80 if tier == "quick" else 400, timeout_ms=5000):
         rep.reachable(ctx)
-        W = C01.witness_fn("sidefx", ss, {"method": method, "nfft": nfft, "dts": dts})
+        W = C01.witness_fn("sidefx", ss, {"method": method, "nfft": nfft, "dts": dts, "fft": None if fft == "unset" else dict(fft), "fft_given": fft != "unset"})
         # (1) frame on samples
         bad = []
         for b, a in zip(before_r, after_r):
@@ -205,7 +210,8 @@ def run_method(rep, tier, method, nrec, nfft, dts=None):
         # (2) repeatability
         if t2 is not None:
             bad2 = [Sym.lift(a) != Sym.lift(b) for a, b in zip(t1, t2)] if len(t1) == len(t2) else [z3.BoolVal(True)]
-            rep.prove(ctx, f"{method}: a second process() call on the same objects returns the same result", bad2, witness=W, key=f"not-repeatable:{method}", nlsat_first=False, timeout_ms=15000)
+            rep.prove(ctx, f"{method}: a second process() call on the same objects returns the same result", bad2, witness=W, key=f"not-repeatable:{method}", nlsat_first=False, timeout_ms=15000,
+                      shape=[z3.And(v.e >= qval(0.5) + qval(0.25) * j, v.e <= 3 + qval(0.25) * j) for s_ in ss for c in ("ns", "ew", "vt") for j, v in enumerate(s_[c])])   # witness shaping: no zero spectra
         if len(rep.samples) < 1:
             rep.sample({"method": method, "records": nrec, "shared_with_inputs": shared[:3]})
 
@@ -246,6 +252,8 @@ def replay(spec):
         recs = [hvsrpy.SeismicRecording3C(*[hvsrpy.TimeSeries(np.array(r[c], dtype=float), dts[i]) for c in ("ns", "ew", "vt")], degrees_from_north=15.0,
                                           meta={"file name(s)": "f", "note": [1, 2]}) for i, r in enumerate(spec["records"])]
         st = _settings(hvsrpy, spec)
+        if spec.get("fft_given"):
+            st.fft_settings = dict(spec["fft"])
         before = [(r.ns.amplitude.copy(), r.ew.amplitude.copy(), r.vt.amplitude.copy(), copy.deepcopy(r.meta), r.degrees_from_north, (r.ns.dt_in_seconds, r.ew.dt_in_seconds, r.vt.dt_in_seconds)) for r in recs]
         sb = copy.deepcopy({k: (getattr(st, k).tolist() if hasattr(getattr(st, k), "tolist") else getattr(st, k)) for k in st.attrs})
         res1 = hvsrpy.process(recs, st)
@@ -264,7 +272,7 @@ def replay(spec):
         if any(sa[k] != sb[k] for k in sb if k != "fft_settings"):
             return {"reproduced": True, "key": "settings-modified", "detail": f"settings changed: {[k for k in sb if sa[k] != sb[k]]}"}
         res2 = hvsrpy.process(recs, st)
-        if not np.allclose(_cells(res2), c1, rtol=1e-12, atol=0, equal_nan=True):
+        if _cells(res2).shape != c1.shape or not np.allclose(_cells(res2), c1, rtol=1e-12, atol=0, equal_nan=True):
             return {"reproduced": True, "key": f"not-repeatable:{m}", "detail": f"{m}: second call differs: {c1.tolist()} vs {_cells(res2).tolist()}"[:300]}
         # isolation: mutate inputs afterwards
         meta = res1["ns"].meta if isinstance(res1, dict) and hasattr(res1["ns"], "meta") else getattr(res1, "meta", {})
